@@ -9,7 +9,7 @@ def prop(pid, **kw):
     kw.setdefault('level', 'other'); kw.setdefault('assumptions', COMMON_ASSUME); kw.setdefault('floors', {})
     PROPS[pid] = kw
 
-prop('C01', rules=['C01.mask', 'rows', 'regions'], take=['C01.mask', 'C01.once', 'C01.levels'],
+prop('C01', rules=['C01.mask', 'rows', 'regions', 'defer_plan'], take=['C01.mask', 'C01.once', 'C01.levels', 'C05.cell'],
      floors={'mask-sites:back': 1, 'mask-sites:back11': 1, 'mask-sites:backmp11': 1},
      explanation='Static rules over the type-checked instantiations of the dispatch code: C01.mask (no equality test on the handled enumerator of a result code).')
 prop('C12', rules=['C12.assign'],
@@ -66,7 +66,8 @@ prop('C08', rules=['cascade'], take=['C08.sites'], floors={'composite-entry:back
      explanation='History call sites: composite entry applies the history policy to all regions before explicit overrides and before any entry; backmp11 history entry first sets all active ids, then runs exactly those entries.')
 prop('C10', rules=['cascade'], take=['C10.first'], floors={'internal-start:back': 1, 'internal-start:back11': 1, 'entry-visitor:backmp11': 1},
      explanation='Completion first: internal_start dispatches the completion event right after the substate entries; backmp11 every state entry is followed by on_state_entry_completed (which inserts the completion occurrence at the front of the pool, see C04.queue-ops).')
-prop('C05', rules=['queues', 'cascade'], take=['C04.queue-ops', 'C04.dequeue', 'C04.erase', 'C04.target', 'C05.clear'],
+prop('C05', rules=['queues', 'cascade', 'seqtype', 'defer_plan'], take=['C04.queue-ops', 'C04.dequeue', 'C04.erase', 'C04.target', 'C05.clear', 'C05.seq-type', 'C05.cell'],
      floors={'queue-op:back:DEFQ:push_back': 1, 'queue-op:back11:DEFQ:push_back': 1, 'queue-op:back:DEFQ:pop_front': 1, 'queue-op:back11:DEFQ:pop_front': 1,
-             'queue-op:back:DEFQ:stable_sort': 1, 'queue-op:back11:DEFQ:stable_sort': 1, 'queue-op:backmp11:POOL:push_back': 1, 'queue-op:backmp11:POOL:erase': 1},
+             'queue-op:back:DEFQ:stable_sort': 1, 'queue-op:back11:DEFQ:stable_sort': 1, 'queue-op:backmp11:POOL:push_back': 1, 'queue-op:backmp11:POOL:erase': 1,
+             'seq-compare:back': 1, 'seq-compare:back11': 1, 'seq-compare:backmp11': 1, 'deferral-check:backmp11-frs': 1},
      explanation='Deferred-queue operation discipline: append only (push_back) with the stored callable bound to the deferring machine and the event by value, removal only front/pop_front after copy-out, re-ordering only by stable_sort, clear only on exit when the history policy drops deferred events (C05.clear); backmp11 pool: append / erase-after-mark.')
